@@ -4526,6 +4526,7 @@ BUFR_Dataset *bufr_create_dataset_from_sequence
       }
 
    tmplt = bufr_create_template( codes, count, tbls, edition );
+   free( codes );
    if (bufr_finalize_template( tmplt ) < 0) 
       {
       bufr_free_template ( tmplt );
